@@ -455,7 +455,7 @@ def run_ob(ctx, ob, idx):
         r.detail = "build: " + str(ex)
         r.wall = time.time() - t0
         return r
-    timeout = ob.timeout or (120 if ctx.quick else 900)
+    timeout = ob.timeout or (300 if ctx.quick else 900)
     if isinstance(ob, AlgOb) and ob.skip_bit:
         r.status = "PASS"
         return run_alg(ctx, ob, idx, binary, r, t0)
